@@ -1770,7 +1770,7 @@ minus_sign:
 zero:
         if (JSONCONS_UNLIKELY(cur >= local_input_end)) // Buffer exhausted               
         {
-            number_state_ = parse_number_state::integer;
+            number_state_ = parse_number_state::zero;
             buffer_.append(hdr, cur);
             position_ += (cur - hdr);
             return cur;
